@@ -23,6 +23,15 @@ CHECKS = {
         "(sequentially unobservable; concurrency is C04), DashMap iteration order = the `order` parameter (observed from the real merge and quantified over in the theorem).",
    technique="Lean 4 proof (invariant + refinement to an abstract map, induction over operations) + differential correspondence with the real store",
    ref="DESIGN.md §5 C01"),
+ "C15": dict(
+   text="Lean theorems over the ConnLimit transition system (listener takes a permit before accept; a handler's Drop returns it whatever ends the handler): in every reachable state "
+        "permits + running handlers + [listener holds one] = max; never more than max handlers; after all handlers ended every permit is available; a waiting client can always be admitted while fewer "
+        "than max are served. The same LTS, executed by the driver, predicts for seeded event scripts (connect / probe / clean close / garbage / half frame / handler panic) which connections the real "
+        "server serves; observed over loopback TCP at max_connections 1..3.",
+   note=COMMON_NOTE + "PARTIAL: the protocol logic is proved; tokio Semaphore / task-drop-on-panic semantics and the kernel's FIFO accept queue are trusted; 'served' is observed with timeouts "
+        "(positive expectations wait 5 s, negative ones 250 ms, so a slow machine cannot fabricate an alarm).",
+   technique="Lean 4 proof (invariant over a labelled transition system) + model-predicted scenario replay against the real server",
+   ref="DESIGN.md §5 C15"),
 }
 NOT_YET = "check under construction in this session; will be claimed once its machinery is committed"
 def main():
